@@ -185,8 +185,8 @@ def anchors():
     return mp
 
 
-def phase_b(m, amap, max_checks, skip=()):
-    order = list(amap.get(m["file"], []))
+def phase_b(m, amap, max_checks, skip=(), force=None):
+    order = list(force) if force else list(amap.get(m["file"], []))
     if m["file"].startswith("bin/"): order = ["C20"]
     for b in BROAD:
         if b not in order and not m["file"].startswith("bin/"): order.append(b)
@@ -216,7 +216,7 @@ def main():
     ap.add_argument("cmd", choices=["gen", "run", "retry", "report"])
     ap.add_argument("--files", nargs="*"); ap.add_argument("--out", default=os.path.join(VERIF, "mutation"))
     ap.add_argument("--jobs", type=int, default=8); ap.add_argument("--limit", type=int, default=0); ap.add_argument("--sample", type=int, default=0)
-    ap.add_argument("--max-checks", type=int, default=4)
+    ap.add_argument("--max-checks", type=int, default=4); ap.add_argument("--checks", help="retry: run exactly these checks (comma separated) instead of the anchored order")
     a = ap.parse_args()
     files = a.files or DEFAULT_FILES
     if a.cmd == "gen":
@@ -253,10 +253,10 @@ def main():
             r = json.loads(l)
             if r["id"] in B: r["tried"] = B[r["id"]]["tried"] + r["tried"]
             B[r["id"]] = r
-        amap = anchors(); todo = [r for r in B.values() if not r["killed_by"] and r["id"] in ms]
+        amap = anchors(); todo = [r for r in B.values() if not r["killed_by"] and r["id"] in ms and (not a.files or ms[r["id"]]["file"] in a.files)]
         with open(fb, "a") as f:
             for k, r0 in enumerate(todo):
-                m = ms[r0["id"]]; r = phase_b(m, amap, a.max_checks, skip=[t["check"] for t in r0["tried"]])
+                m = ms[r0["id"]]; r = phase_b(m, amap, a.max_checks, skip=[t["check"] for t in r0["tried"]], force=a.checks.split(",") if a.checks else None)
                 if not r["tried"]: continue
                 f.write(json.dumps(r) + "\n"); f.flush()
                 print("retry %d/%d %s %s:%d %r -> %r : %s" % (k, len(todo), m["id"], m["file"], m["line"], m["old"][:30], m["new"][:30], r["killed_by"] or "SURVIVED"), flush=True)
